@@ -43,6 +43,8 @@ SVC = {
     "s1": (0x1111, 1, 1, 0),
     "s2": (0x1111, 2, 1, 0),
     "s3": (0x2222, 1, 2, 5),
+    "s4": (0x3333, 7, 3, 0),
+    "w3": (0x3333, ANY16, ANY8, ANY32),     # an instance configured with wildcard ids
 }
 RSVC = {v: k for k, v in SVC.items()}
 
@@ -110,11 +112,15 @@ def abs_entry(e):
     opts = [opt_name(o) for o in e.options_1] + [opt_name(o) for o in e.options_2]
     if e.sd_type in (T.OfferService, T.FindService):
         key = (e.service_id, e.instance_id, e.major_version, e.minver_or_counter)
-        return {"ty": "offer" if e.sd_type == T.OfferService else "find",
-                "svc": RSVC.get(key, "s?"), "ids": [wild(x) for x in key], "ttl": e.ttl, "opts": opts}
+        if e.sd_type == T.FindService:
+            return {"ty": "find", "svc": RFIND.get(key, "f?"), "ids": [wild(x) for x in key], "ttl": e.ttl, "opts": opts}
+        if e.service_id == 0x7000:      # ghost entry of the C15 driver: the tag travels in the instance id
+            return {"ty": "offer", "svc": "g", "tag": e.instance_id, "ttl": e.ttl, "opts": opts}
+        return {"ty": "offer", "svc": RSVC.get(key, "s?"), "ids": [wild(x) for x in key], "ttl": e.ttl, "opts": opts}
     return {"ty": "sub" if e.sd_type == T.Subscribe else "ack",
             "ids": [e.service_id, e.instance_id, e.major_version], "eg": e.eventgroup_id,
             "ctr": e.eventgroup_counter, "ttl": e.ttl, "opts": opts,
+            "eps": sorted(o for o in opts if o in EP),
             "svc": RSVC.get(_svc3(e), "s?")}
 
 
@@ -125,6 +131,32 @@ def _svc3(e):
     return None
 
 
+# FindService filters by name (ids with wildcards), and ghost entries for C15 (service 0x7000 + tag)
+FIND = {
+    "f1": (0x1111, ANY16, ANY8, ANY32),
+    "f1x": (0x1111, 1, 1, 0),
+    "f1m": (0x1111, 1, 1, 9),
+    "f1i": (0x1111, 2, ANY8, ANY32),
+    "f3": (0x2222, ANY16, 2, ANY32),
+    "f4": (0x3333, ANY16, ANY8, ANY32),
+    "f4x": (0x3333, 7, 3, 0),
+    "fz": (0x4444, ANY16, ANY8, ANY32),
+}
+RFIND = {v: k for k, v in FIND.items()}
+
+
+def find_matches(flt, svc):
+    """independent statement of Service.matches_find: only the REQUEST may carry wildcards"""
+    f, s = FIND[flt], SVC[svc]
+    return f[0] == s[0] and all(a == w or a == b for a, b, w in zip(f[1:], s[1:], (ANY16, ANY8, ANY32)))
+
+
+def sub_matches(inst_svc, entry_svc):
+    """independent statement of Service.matches_subscribe (ids only): only the INSTANCE may carry wildcards"""
+    i, e = SVC[inst_svc], SVC[entry_svc]
+    return i[0] == e[0] and all(a == w or a == b for a, b, w in zip(i[1:3], e[1:3], (ANY16, ANY8)))
+
+
 def wild(x):
     return -1 if x in (ANY16, ANY8, ANY32) else x
 
@@ -133,6 +165,13 @@ def conc_entry(a):
     """abstract entry record -> library SOMEIPSDEntry (resolved options)"""
     T = hdr.SOMEIPSDEntryType
     opts = tuple(OPT[o] for o in a.get("opts", ()))
+    if a["ty"] == "offer" and "tag" in a:
+        return hdr.SOMEIPSDEntry(sd_type=T.OfferService, service_id=0x7000, instance_id=a["tag"], major_version=1,
+                                 ttl=a["ttl"], minver_or_counter=0, options_1=opts)
+    if a["ty"] == "find" and "ids" not in a:
+        ids = FIND[a["svc"]]
+        return hdr.SOMEIPSDEntry(sd_type=T.FindService, service_id=ids[0], instance_id=ids[1], major_version=ids[2],
+                                 ttl=a["ttl"], minver_or_counter=ids[3], options_1=opts)
     if a["ty"] in ("offer", "find"):
         if "ids" in a:
             ids = [x for x in a["ids"]]
@@ -145,9 +184,10 @@ def conc_entry(a):
                                  service_id=ids[0], instance_id=ids[1], major_version=ids[2],
                                  ttl=a["ttl"], minver_or_counter=ids[3], options_1=opts)
     ids = a["ids"] if "ids" in a else SVC[a["svc"]][:3]
+    eps = tuple(OPT[o] for o in a.get("eps", ()))
     return hdr.SOMEIPSDEntry(sd_type=T.Subscribe if a["ty"] == "sub" else T.SubscribeAck,
                              service_id=ids[0], instance_id=ids[1], major_version=ids[2], ttl=a["ttl"],
-                             minver_or_counter=(a.get("ctr", 0) << 16) | a["eg"], options_1=opts)
+                             minver_or_counter=(a.get("ctr", 0) << 16) | a["eg"], options_1=eps, options_2=opts)
 
 
 def build_sd(entries, rb, sid, uc=True):
@@ -228,8 +268,11 @@ class ClientL(sd.ClientServiceListener):
 
 def abs_sub(s):
     eps = sorted(opt_name(o) for o in s.endpoints)
-    return {"ids": [s.service_id, s.instance_id, s.major_version], "eg": s.id, "ctr": s.counter,
-            "eps": eps, "ttl": s.ttl}
+    k3 = None
+    for k in SVC.values():
+        if k[:3] == (s.service_id, s.instance_id, s.major_version):
+            k3 = k
+    return {"svc": RSVC.get(k3, "s?"), "eg": s.id, "ctr": s.counter, "eps": eps, "ttl": s.ttl}
 
 
 class ServerL(sd.ServerServiceListener):
@@ -289,6 +332,11 @@ class Stack:
         self.rec = Recorder(self.loop)
         self.prot = sd.ServiceDiscoveryProtocol(MC, timings=tim or timings())
         self.prot.transport = FakeTransport(self.rec.on_send, sockname)
+        for comp, obj in (("disc", self.prot.discovery), ("sub", self.prot.subscriber), ("ann", self.prot.announcer)):
+            def wrapper(exc, comp=comp, orig=obj.connection_lost):
+                self.rec.emit(k="out", op="cl_applied", comp=comp)
+                return orig(exc)
+            obj.connection_lost = wrapper
         self.rand = RandStub(self.rec, rand)
         sd.random = self.rand  # module attribute used by sd.random.uniform
 
@@ -312,7 +360,8 @@ class Stack:
         self.loop.run_to(t_end)
         self.rec.flush_exceptions()
         missed = list(self.loop.missed)
+        ev = list(self.rec.ev)          # (closing the loop finalises pending coroutines: their finally blocks still run)
         self.loop.shutdown()
         import random
         sd.random = random
-        return self.rec.ev, missed
+        return ev, missed
